@@ -163,6 +163,18 @@ class C10(Prop):
                'rm', 'add']
 
     @staticmethod
+    def make_glob(rng, op):
+        """start / stop / restart addressed to several watchers at once by a
+        pattern (the arbiter-level operations)"""
+        if op['cmd'] in ('start', 'stop', 'restart') and rng.random() < 0.2:
+            op['w'] = None
+            op.pop('case', None)
+            op['props'] = {'name': rng.choice(['w*', 'w*', 'W*', 'w[0-9]',
+                                               '*']),
+                           'match': 'glob'}
+        return op
+
+    @staticmethod
     def make_add(rng, op):
         """add a new watcher (started at once, with a warm-up so that the
         operation stays in flight for a while)"""
@@ -248,6 +260,7 @@ class C10(Prop):
                 a['props']['options'] = {'uid': 'no-such-user-xyz'}
             if a['cmd'] == 'add':
                 self.make_add(rng, a)
+            self.make_glob(rng, a)
             ops.append(a)
             for _k in range(rng.choice([1, 1, 2, 3])):
                 y = rng.random()
@@ -259,6 +272,7 @@ class C10(Prop):
                         b['w'] = a['w']
                     if b['cmd'] == 'add':
                         self.make_add(rng, b)
+                    self.make_glob(rng, b)
                     ops.append(b)
                 else:
                     ops.append(gen.gen_death(rng, nw, inflight=True))
